@@ -687,7 +687,16 @@ func (x *Extractor) SimplifyUnder(r *RF, assume []Assumption) *RF {
 		}
 		// an assumed atomic condition occurring inside a boolean structure
 		switch at.Name {
-		case "land", "lor", "not", "ite", "true", "false":
+		case "land", "lor", "not":
+			// a boolean combination the assumptions decide as a whole
+			switch x.EvalCond(x.S.MakeFn(at.Name, args...), assume) {
+			case True:
+				return x.S.True()
+			case False:
+				return x.S.False()
+			}
+			return nil
+		case "ite", "true", "false":
 			return nil
 		}
 		{
